@@ -544,6 +544,7 @@ def run(P, R, tier):
     gfwcache_rule(P, R)
     isoweights_rule(P, R)
     xstate_rule(P, R)
+    dlhomog_rule(P, R)
     unitfamilies_rule(P, R)
     spreaddefaults_rule(P, R)
     gfw_rule(P, R)
@@ -867,3 +868,54 @@ def xstate_rule(P, R):
             R.ok(RULE, inst, "reset (line %d) and filled by add_solution (line %d)" % (z, a))
         else:
             R.ok(RULE, inst, "reset by xsolution_zero (line %d)" % z)
+
+
+def dlhomog_rule(P, R):
+    """"scaling the water mass and all extensive amounts by a common factor ... gives the same results": in molalities() the diffuse-layer
+    terms of every species are built from extensive quantities (moles of the species, mass of water in the diffuse layer, mass of free
+    water) and intensive ones (g, dg, erm_ddl).  Scaling every extensive symbol by 2 must leave the intensive sum total_g unchanged
+    (degree 0) and double the mole amounts g_moles and dh2o_moles (degree 1) - checked as rational-function identities.  A water mass
+    that is not divided by the free-water mass makes total_g (which feeds the mole balances and the Jacobian) depend on the system size."""
+    from .. import ratfun as RF
+    RULE = "C15.dlhomog"
+    R.rule(RULE, "molalities(): diffuse-layer terms are homogeneous in the extensive quantities (total_g degree 0, g_moles / dh2o_moles degree 1)", minimum=3)
+    f = P.one("Phreeqc::molalities")
+
+    def sym(n):
+        return "".join(T.text(n, -40).split())
+
+    def rat(n):
+        return RF.from_tree(n, sym, opaque_calls=("Get_g", "Get_dg", "Get_mass_water", "Get_specific_area", "Get_grams"))
+    EXT = ("moles", "Get_mass_water()", "mass_water_aq_x", "mass_water_bulk_x", "Get_grams()")
+
+    def degree(r):
+        q = r
+        for s_ in sorted(r.symbols()):
+            if any(s_.endswith(e) or e in s_ for e in EXT):
+                q = q.scaled(s_, 2)
+        for d in (0, 1, 2):
+            if q.same(r * RF.Rat.const(2 ** d)):
+                return d
+        return None
+    items = []
+    for x in T.walk(f["body"]):
+        if x[0] == "Bin" and x[2] == "+=" and T.text(T.strip_casts(x[3])) == "total_g":
+            items.append(("total_g", 0, x[1], x[4]))
+        if x[0] == "Call" and T.callee_name(x) in ("Set_g_moles", "Set_dh2o_moles") and x[4]:
+            items.append((T.callee_name(x)[4:], 1, x[1], x[4][0]))
+    if len(items) < 3:
+        R.anchor_missing(RULE, "molalities(): only %d diffuse-layer terms found" % len(items))
+        return
+    for name, want, line, e in items:
+        inst = "%s@%d" % (name, line - f["line"])
+        try:
+            d = degree(rat(e))
+        except RF.NotRational as ex:
+            R.anchor_missing(RULE, "%s: not rational (%s)" % (inst, ex))
+            continue
+        if d == want:
+            R.ok(RULE, inst, "homogeneous of degree %d" % d)
+        else:
+            R.violation(RULE, inst, "`%s` is %s in the extensive quantities, degree %d is required: the diffuse-layer term depends on the size of the system (water mass), "
+                        "results change when everything is scaled by a common factor" % (T.text(e)[:70], "not homogeneous" if d is None else "of degree %d" % d, want),
+                        file=f["file"], line=line, function=f["q"])
